@@ -325,13 +325,16 @@ def run_standard_case(cfg, want=("c01", "c05"), keep_output=False):
     out = scratch("std")
     kw = std_base(cfg.get("seed", 0), **cfg.get("kwargs", {}))
     mon = StdMonitor()
+    from .monitors import PoolMonitor
+
+    pmon = PoolMonitor()
     killer = CheckpointKiller(cfg["resume"] if cfg.get("resume") == "every" else cfg.get("kill_at", ()))
     res = dict(key=cfg_key(cfg), errs=[], iterations=0, resumes=0)
     guards = []
     fs = None
     model = None
     try:
-        with mon.installed(), killer.installed():
+        with mon.installed(), killer.installed(), (pmon.installed() if "c09" in want else contextlib.nullcontext()):
             for attempt in range(200):
                 model = make(cfg.get("model", "G2"))
                 guards.append(Guarded(model))
@@ -360,6 +363,11 @@ def run_standard_case(cfg, want=("c01", "c05"), keep_output=False):
     res["insert_positions"] = sorted(mon.insert_positions)
     if "c01" in want:
         res["errs"] += mon.errs
+    if "c09" in want:
+        res["errs"] += pmon.errs
+        res["populations"] = pmon.populations
+        res["pool_draws"] = pmon.draws
+        res["pool_kinds"] = sorted(pmon.kinds)
     for g in guards:
         if g.bad:
             res["errs"].append(("likelihood-called-outside-prior-support", g.bad[0]))
